@@ -278,7 +278,7 @@ pub fn run(args: Args) -> ! {
             }
         }
     }
-    let cases = args.tier.pick(60_000, 1_500_000);
+    let cases = args.tier.pick(240_000, 3_000_000);
     let run = run_tape("C03.adjacent", &prop_adjacent, 3000, cases, args.seed, workers());
     finish_run(&mut rep, "adjacent", run);
     let run = run_tape("C03.interleaved", &prop_interleaved, 3000, cases / 2, args.seed, workers());
